@@ -134,11 +134,12 @@ SILENT_EDITS = [   # behaviour-preserving, reported nothing new
 
 def run(ctx):
     from ..rules import cfgjump
-    from ..rules import sC21, s4C21
+    from ..rules import sC21, s4C21, dD11
     return [pC21.rule_abstract_handlers(ctx), pC21.rule_visitor_state(ctx), pC21.rule_lattice(ctx), pC21.rule_defaults_guards(ctx), pC21.rule_infer(ctx), cfgjump.rule_jump(ctx),
             sC21.rule_loopvar(ctx), sC21.rule_cfg(ctx, 'main', floor=160), sC21.rule_nullsafe(ctx), sC21.rule_cfg(ctx, 'deltry'),
             sC21.rule_cfg(ctx, 'nestfin', floor=40), sC21.rule_cfg(ctx, 'excas', floor=34), s4C21.rule_excas(ctx), s4C21.rule_finerr(ctx),
-            sC21.rule_cfg(ctx, 'deepfin', floor=80)]
+            sC21.rule_cfg(ctx, 'deepfin', floor=80),
+            dD11.rule_kinds(ctx)]        # C21-KINDS (rules/dD11.py), armed after the repair 9ba07fb88
     # armed after the repair e5f017ba9 (FINDING_1 of session H3): sC21.rule_cfg(ctx, 'deepfin', floor=80) -- C21-CFG-DEEPFIN, the same rule on `break` / `continue` through two nested finally clauses and
     # `return` through three: visit_BreakStatNode / visit_ContinueStatNode / visit_ReturnStatNode lost the edge into the outer finally clause on the unmodified tree.
     # armed after the repair 1f1e46754: sC21.rule_cfg(ctx, 'deltry') -- the same rule on the scenarios with a `del` inside a try body reports a genuine defect of the unmodified tree
